@@ -148,6 +148,10 @@ def tasks_c10(tier, seed):
     return seq("c10", tier, shards=16)
 
 
+def tasks_c20(tier, seed):
+    return seq("c20", tier, shards=16)
+
+
 def tasks_c13(tier, seed):
     return seq("c13", tier, shards=16) + IX_TASKS(tier)
 
@@ -233,6 +237,8 @@ PLANS = {
             "assumptions": ["same enumeration as C13; the query-handler path over a Service is covered by the c14h check"]},
     "C10": {"tasks": tasks_c10, "level": "model_checking",
             "assumptions": ["reference RES client: change sets/deletes keys, add/remove need in-range indexes, create/delete trigger a re-fetch", "mutations go through mockstore (badgerstore shares the OnChange contract checked by C11)"]},
+    "C20": {"tasks": tasks_c20, "level": "model_checking",
+            "assumptions": ["an add event on a missing collection without default starts from the empty collection (as the code documents)", "deleting a resource that is not stored is unspecified: only 'storage unchanged' is required"]},
     "C03": {"tasks": tasks_c03, "level": "model_checking",
             "assumptions": ["Shutdown is called from outside callbacks", "envnats models the connection"]},
 }
@@ -278,6 +284,9 @@ MANIFEST_TEXT = {
     "C14": {"engine": "seq", "technique": "same enumeration as C13 with a callback oracle: OnQueryChange count per mutation, query results inside the callback, Events() against before/after reference results",
             "level": "For every mutation of every enumerated history: query-change callbacks fire exactly once iff an index key changed and after the index reflects it (queries issued inside the callback equal the post-state reference), Events reports affected whenever the reference result differs and unaffected when neither key matches; the QueryHandler path is run on a real Service for ordinary and query resources.",
             "note": "Five probe queries per mutation (both indexes, prefixes, filter, window)."},
+    "C20": {"engine": "seq", "technique": "bounded-exhaustive event sequences through both legacy BadgerDB middleware packages on a real BadgerDB, compared with a reference fold after every event and after reopening the database",
+            "level": "Every sequence of <=4 (5 thorough) events over the model / collection event alphabets for 16 configurations (package x type x typed x default x index set): after each event the get response, Value(), the published event and the listener's old values / deleted data are compared with a reference fold; inapplicable events must publish nothing and leave storage unchanged; the database is closed and reopened and compared with the fold.",
+            "note": "Events are emitted from With callbacks of a real Service under the scheduler; the database is reopened after every 25th sequence."},
     "C15": {"engine": E1, "technique": "stateless model checking of the implementation with a virtual clock: preemption-bounded DFS over interleavings of query requests, expiry and callbacks",
             "level": "Every interleaving (up to the bound) of a query event with 0-2 requesters (valid, empty, missing and malformed queries), every callback behaviour, subscription failure, a concurrent callback of the same group and a chain of three events; the timer fires at any point; responses, nil-call count/order, group serialisation and released resources are checked on every execution.",
             "note": "The in-memory connection models acceptance/arrival of messages separately; inbox names are canonicalised."},
